@@ -117,3 +117,46 @@ pub fn add_scaled(lines: &mut Vec<String>, every: usize, shifts: &[u32], keys: &
     }
     lines.extend(extra);
 }
+
+/// `level + v/128` for every value of a series (dyadic: level 2^10, 10 fractional bits): small
+/// fluctuations around a large level — the regime where the one-pass closed forms cancel most
+pub fn level_up(xs: &[&str], level: i64) -> Vec<String> {
+    xs.iter()
+        .map(|t| {
+            if *t == "_" {
+                "_".to_string()
+            } else {
+                let (p, q) = match t.split_once('/') {
+                    Some((p, q)) => (p.parse::<i64>().unwrap_or(0), q.parse::<i64>().unwrap_or(1)),
+                    None => (t.parse::<i64>().unwrap_or(0), 1),
+                };
+                let den = 128 * q;
+                let num = level * den + p;
+                let g = gcd(num.abs(), den);
+                if den / g == 1 { format!("{}", num / g) } else { format!("{}/{}", num / g, den / g) }
+            }
+        })
+        .collect()
+}
+
+/// for every `every`-th request of a function whose accumulators stay exact (highest power <= 2)
+/// append a copy with the series moved to `level + v/128`
+pub fn add_leveled(lines: &mut Vec<String>, every: usize, level: i64, keys: &[&str]) {
+    let n = lines.len();
+    let mut extra = vec![];
+    for i in (0..n).step_by(every.max(1)) {
+        let mut r = crate::proto::Req::parse(&lines[i]);
+        let Some(f) = crate::catalog::find(&r.f) else { continue };
+        if f.pow > 2 || !r.has("xs") || matches!(r.s("t"), "i32" | "i64" | "oi32" | "f32") || r.s("t2").starts_with('i') || matches!(r.s("t2"), "oi32" | "f32") {
+            continue;
+        }
+        for k in keys {
+            if r.has(k) {
+                let v: Vec<String> = level_up(&r.list(k), level);
+                r.set(k, join(&v));
+            }
+        }
+        extra.push(r.line());
+    }
+    lines.extend(extra);
+}
